@@ -319,6 +319,7 @@ pub fn c12_book_spec(tier: Tier) -> BookSpec {
     p.w_modify = 30;
     p.w_create = 15;
     p.p_tie = 0.05;
+    p.zero_bids = true;
     BookSpec {
         check: "c12",
         mons: M_GRID,
